@@ -15,6 +15,18 @@ Decided structurally:
                        the copy when a preprocessor ran and the fixture itself otherwise
   R5 once and ordered  env / ports / mounts live in ordered maps / sets of the command structs, buildpacks in a
                        Vec; each loop emits one option per element
+  R6 setters store     every setter / constructor of the configuration types (ContainerConfig, BuildConfig) and of the
+                       command structs stores exactly its parameters — all of them, unchanged, unconditionally, whole
+                       iterables, key and value not swapped — into one field: by assignment where the API sets a value,
+                       by insert / push where it adds one (last write wins for a key, order kept for a Vec); the field is
+                       the one the next stage reads (R3 for configuration fields; for command structs the field that
+                       the conversion emits as the value of the setter's option, component by component); collections
+                       and options the setters fill start empty
+  R7 option grammar    the value of every option that carries configuration, decoded with the tool's grammar for that
+                       option (`--env NAME=VALUE`, `--publish [ip:][host]:PORT`, `--mount type=bind,source=..,target=..`,
+                       plain values), consists of the stored components themselves (lossless renderings only)
+  R8 unconditional     an option / flag is emitted whenever its field is set and once for every element of a collection:
+                       no condition on the *contents* of a field gates a contribution, no loop is left early
 Not decided: Docker's / pack's own sub-parsing of option values (e.g. `=` inside --env values, `,` in mount paths).
 
 The obligations are stated on semantics, not on one spelling (rules/C17_helpers.py):
@@ -25,6 +37,9 @@ The obligations are stated on semantics, not on one spelling (rules/C17_helpers.
     entry function's terms; "per element" = inside a loop (`for` or `for_each`) over the whole config collection,
     reached in every iteration and passed on every path to the command invocation, handed the element itself
   * app path = phi-free alternatives of the value given to PackBuildCommand::new with private helpers inlined
+  * stores = writes to `self.<field>` (assignments, container calls on `&mut self.<field>`) reached from a setter through
+    helpers, delegated setters and closures, with the written values in the setter's own terms; iterables through the
+    iterator algebra (truncating / filtering adapters lose elements)
 """
 from . import C17_helpers as H
 from .lib import iters
@@ -51,6 +66,28 @@ POSITIONAL = {
 }
 # docker stops option parsing at the first positional: (positional field, the field holding the trailing command)
 TRAILING = {'DockerRunCommand': ('image_name', 'command'), 'DockerExecCommand': ('container_name', 'command')}
+# public configuration API: method -> (field R3 reads, 'set' replaces the value | 'add' adds to the collection); for
+# constructors parameter index -> field
+CC, BC = 'libcnb_test::container_config::ContainerConfig', 'libcnb_test::build_config::BuildConfig'
+CONFIG_API = {
+    CC: {'entrypoint': ('entrypoint', 'set'), 'command': ('command', 'set'), 'env': ('env', 'add'), 'envs': ('env', 'add'),
+         'expose_port': ('exposed_ports', 'add'), 'bind_mount': ('bind_mounts', 'add'), 'new': {}},
+    BC: {'new': {0: 'builder_name', 1: 'app_dir'}, 'buildpacks': ('buildpacks', 'set'), 'cargo_profile': ('cargo_profile', 'set'),
+         'target_triple': ('target_triple', 'set'), 'env': ('env', 'add'), 'envs': ('env', 'add'),
+         'app_dir_preprocessor': ('app_dir_preprocessor', 'set'), 'app_dir': ('app_dir', 'set'),
+         'expected_pack_result': ('expected_pack_result', 'set')},
+}
+# command-struct API: method -> (option whose value the stored field must become, grammar roles in parameter order, mode);
+# 'image' / 'command' are the positionals of TRAILING
+COMMAND_API = {
+    'DockerRunCommand': {'new': {0: ('image', None)}, 'entrypoint': ('--entrypoint', ('value',), 'set'),
+                         'command': ('command', (), 'set'), 'env': ('--env', ('name', 'value'), 'add'),
+                         'expose_port': ('--publish', ('port',), 'add'), 'bind_mount': ('--mount', ('source', 'target'), 'add')},
+    'PackBuildCommand': {'new': {0: ('--builder', 'value'), 1: ('--path', 'value')}, 'buildpack': ('--buildpack', ('value',), 'add'),
+                         'env': ('--env', ('name', 'value'), 'add')},
+}
+# options whose values carry configuration (R7)
+CONFIG_OPTIONS = {'DockerRunCommand': ('--entrypoint', '--env', '--publish', '--mount'), 'PackBuildCommand': ('--builder', '--path', '--buildpack', '--env')}
 CONTAINER_SETTERS = {'entrypoint': 'entrypoint', 'command': 'command', 'env': 'env', 'exposed_ports': 'expose_port', 'bind_mounts': 'bind_mount'}
 
 
@@ -58,11 +95,14 @@ def run(ctx, rep):
     prog, sl = ctx.prog, ctx.slicer
     for r, d in (('R1', 'user values only in option-value positions; words and flags constant'), ('R2', 'every command-struct field reaches argv'),
                  ('R3', 'every configuration field is forwarded'), ('R4', 'preprocessor and pack see the temporary copy, the fixture stays untouched'),
-                 ('R5', 'ordered containers, one option per element')):
+                 ('R5', 'ordered containers, one option per element'), ('R6', 'setters and constructors store exactly their parameters, in the field the next stage reads'),
+                 ('R7', 'option values follow the option grammar and consist of the stored components themselves'),
+                 ('R8', 'options are emitted whenever the field is set, once per element')):
         rep.rule(r, d)
     rep.not_decided = ['docker/pack sub-parsing of option values ("=" in --env values, "," in mount paths)']
     cmds = from_command_fns(prog)
     rep.floor('R1', 'command_conversions', len(cmds))
+    argv_roles = {}     # struct -> {option: {role: (field, component, is element)}}
     for ty, f in sorted(cmds.items()):
         rep.analysed(f)
         short = ty.split('::')[-1]
@@ -82,6 +122,8 @@ def run(ctx, rep):
             if merged and merged[-1].conds == it.conds and merged[-1].loop == it.loop and it.elems and it.elems[0][0] == 'field' \
                     and merged[-1].elems and merged[-1].elems[-1][0] == 'const' and merged[-1].elems[-1][1].startswith('--'):
                 merged[-1].elems = merged[-1].elems + it.elems
+                merged[-1].vals = list(getattr(merged[-1], 'vals', [])) + list(getattr(it, 'vals', [None] * len(it.elems)))
+                merged[-1].issues = list(getattr(merged[-1], 'issues', [])) + [x for x in getattr(it, 'issues', []) if x not in getattr(merged[-1], 'issues', [])]
             else:
                 merged.append(it)
         items = merged
@@ -150,6 +192,7 @@ def run(ctx, rep):
                     fty = ftys[e[1]]
                     rep.check(inner(fty).startswith(ORDERED), 'R5', '%s/%s' % (short, e[1]), it.call.where(), 'the words of the ordered %s, in order' % inner(fty).split('<')[0].split('::')[-1],
                               '%s (%s) is handed to the command line in an unspecified order' % (e[1], fty))
+        option_checks(rep, sl, f, short, items, argv_roles)
     # docker exec command starts with the launcher constant (the words are read where they are written: lifted out
     # of private helpers, first element of whatever iterable is handed over)
     ex_new = 'libcnb_test::docker::DockerExecCommand::new'
@@ -166,6 +209,58 @@ def run(ctx, rep):
             n += 1
     rep.check(bool(sites), 'R1', 'DockerExecCommand/sites', '-', '%d construction site(s)' % len(sites), 'no DockerExecCommand construction found')
     forwarding(ctx, rep)
+    setters(ctx, rep, cmds, argv_roles)
+
+
+def option_checks(rep, sl, f, short, items, argv_roles):
+    """R7 (grammar of the option values that carry configuration) and R8 (no contribution depends on the contents of a field)"""
+    where = '%s:%d' % (f.file, f.line)
+    roles = argv_roles.setdefault(short, {})
+    seen_opts = {}
+    for it in items:
+        vals = getattr(it, 'vals', None) or [None] * len(it.elems)
+        prev = None
+        for e, v in zip(it.elems, vals):
+            if prev is not None and prev[0] == 'const' and prev[1].startswith('--') and e[0] == 'field' and v is not None \
+                    and prev[1] in CONFIG_OPTIONS.get(short, ()):
+                got, problem = H.parse_option_value(prev[1], v, f, sl)
+                subj = '%s/%s' % (short, prev[1])
+                if problem is None:
+                    rep.holds('R7', subj, it.call.where(), '%s <- %s' % (prev[1], ', '.join('%s=%s%s' % (k, r[0], ''.join('.' + c for c in r[1])) for k, r in sorted(got.items()))))
+                    old = roles.get(prev[1])
+                    roles[prev[1]] = got if old is None or old == got else {}
+                elif problem[0] == 'bad':
+                    rep.violated('R7', subj, it.call.where(), 'value of %s: %s' % (prev[1], problem[1]))
+                    roles.setdefault(prev[1], {})
+                else:
+                    rep.unproven('R7', subj, it.call.where(), 'value of %s not understood: %s' % (prev[1], problem[1]))
+                    roles.setdefault(prev[1], {})
+                seen_opts[prev[1]] = True
+            prev = e
+    for opt in CONFIG_OPTIONS.get(short, ()):
+        if opt not in seen_opts:
+            rep.unproven('R7', '%s/%s' % (short, opt), where, 'no %s option with a field-derived value found in the conversion' % opt)
+    # R8: value-dependent conditions.  Inside a loop the alternatives of a condition may all contribute (each is then
+    # checked by R7 on its own); what matters is that every iteration contributes and the loop runs to the end
+    by_field = {}
+    for it in items:
+        for fld, what in getattr(it, 'issues', []) or []:
+            by_field.setdefault(fld, []).append((it, what))
+    flagged = set()
+    for fld, lst in sorted(by_field.items()):
+        it0 = lst[0][0]
+        in_loop = [it for it in items if it.loop == fld and getattr(it, 'eff', None) is not None]
+        if it0.loop == fld and in_loop and H.every_iteration_contributes(in_loop[0].E, [it.eff for it in in_loop]):
+            continue
+        flagged.add(fld)
+        rep.violated('R8', '%s/%s' % (short, fld), it0.call.where(), 'the contribution for %s is %s: the configured value does not always reach the command line' % (fld, lst[0][1]))
+    early = sorted({it.loop for it in items if it.loop and getattr(it, 'eff', None) is not None and H.loop_exits_early(it.E, it.eff)})
+    for fld in early:
+        if fld not in flagged:
+            flagged.add(fld)
+            rep.violated('R8', '%s/%s' % (short, fld), where, 'the loop over %s can be left before all elements were emitted' % fld)
+    if short in CONFIG_OPTIONS and not flagged:
+        rep.holds('R8', short, where, 'no contribution depends on the contents of a field; loops run to the end')
 
 
 RUNC = 'libcnb_test::docker::DockerRunCommand::'
@@ -247,6 +342,15 @@ def forwarding(ctx, rep):
             # `if let Some(x) = &config.f` or `config.f.iter().for_each(..)`: no loop over anything else around it
             ok = src == fld and all(H.whole_collection(sl, lc[3], cfg) == fld for lc in H.loop_contexts(E, cs[0]))
             why = 'argument <- config.%s' % src
+            if ok:
+                # the value itself, whenever it is set: not a filtered / defaulted / transformed one, and under no
+                # condition other than the presence of the field
+                a = cs[0].args[1]
+                if not (cfg.exact(a) == fld or H.element_of(sl, a, cfg) == (fld, ()) or H.whole_collection(sl, strip(a), cfg) == fld):
+                    ok, why = False, 'the argument is %s, not the configured value itself' % vstr(strip(a))[:70]
+                extra = H.extra_conditions(E, sl, cs[0], cfg, fld)
+                if ok and extra:
+                    ok, why = False, 'forwarded only when %s' % extra[0]
         elif ok:
             ok, why = _elementwise(E, sl, cs, cfg, fld, run, len(cs[0].args) - 1)
             why = '%s -> %s(element)' % (why, setter)
@@ -367,6 +471,20 @@ def forwarding(ctx, rep):
             why = 'the loop over config.buildpacks is not passed on every path to the pack invocation'
     rep.check(ok, 'R3', 'build/buildpacks', bw, 'one pack_command.buildpack(..) per configured reference, for every reference kind, in iteration order',
               'buildpack forwarding: %s' % why)
+    # what is handed over: the configured reference itself, or the directory a packaging helper produced for it
+    PKG = (FNS['package_crate_buildpack'], FNS['package_buildpack'])
+    for i, e in enumerate(bp):
+        a = sl.inline_deep(e.args[1], keep=PKG) if len(e.args) > 1 else ('unknown', 'no argument')
+        verdicts = [H.buildpack_argument(sl, alt, cfg, PKG) for alt in H.alternatives(a, opaque=PKG)]
+        bad = [v for v in verdicts if v[0] == 'bad']
+        unk = [v for v in verdicts if v[0] == 'unknown']
+        subj = 'build/buildpack-arg#%d' % i
+        if bad:
+            rep.violated('R3', subj, e.where(), 'pack_command.buildpack(..) is given %s' % bad[0][1])
+        elif unk:
+            rep.unproven('R3', subj, e.where(), 'argument of pack_command.buildpack(..) not understood: %s' % unk[0][1])
+        else:
+            rep.holds('R3', subj, e.where(), 'forwards %s' % ' | '.join(sorted({v[1] for v in verdicts})))
     seen.add('buildpacks')
     for k in ('package_crate_buildpack', 'package_buildpack'):
         cs = by.get('FN:' + k, [])
@@ -399,6 +517,128 @@ def forwarding(ctx, rep):
     rep.check(sorted(seen) == sorted(bfields), 'R3', 'BuildConfig/fields', '%s:%s' % (bcfg['file'], bcfg['line']), 'all %d BuildConfig fields are consumed' % len(bfields),
               'BuildConfig fields %s, consumed %s' % (sorted(bfields), sorted(seen)))
     rep.check(len(run) == 1 and not H.loop_contexts(E, run[0]), 'R3', 'build/one-pack-invocation', bw, 'exactly one pack build invocation', '%d pack invocations' % len(run))
+
+
+def setters(ctx, rep, cmds, argv_roles):
+    """R6: what the setters / constructors of the configuration types and of the command structs store"""
+    prog, sl = ctx.prog, ctx.slicer
+    types = [(t, t.split('::')[-1], CONFIG_API[t], None) for t in (CC, BC)] + \
+            [(t, t.split('::')[-1], None, COMMAND_API.get(t.split('::')[-1])) for t in sorted(cmds)]
+    n_setters = 0
+    for ty, short, capi, kapi in types:
+        adt = prog.adt(ty)
+        ftys = {x['name']: x['ty'] for x in adt['variants'][0]['fields']}
+        found = set()
+        fill = {}      # field -> how the setters fill it ('add' | 'set')
+        for f in H.carrier_methods(prog, ty):
+            m = f.path.split('::')[-1]
+            subj = '%s::%s' % (short, m)
+            is_setter = bool(f.args) and f.args[0] == '&mut ' + ty
+            if is_setter and f.argc >= 2:
+                rep.analysed(f)
+                n_setters += 1
+                found.add(m)
+                V = H.judge_setter(prog, sl, f)
+                if V.ok is None:
+                    rep.unproven('R6', subj, V.where, 'what %s stores could not be established: %s' % (subj, V.why))
+                    continue
+                rep.check(V.ok, 'R6', subj, V.where, 'stores exactly its parameter(s): %s' % V.why, '%s does not store exactly what it is given: %s' % (subj, V.why))
+                if not V.ok:
+                    continue
+                fill.setdefault(V.field, V.mode)
+                if capi is not None and m in capi:
+                    fld, mode = capi[m]
+                    ok = V.field == fld and V.mode == mode and V.order() == sorted(V.order())
+                    why = 'stores into %s (%s)%s' % (V.field, {'set': 'replacing the value', 'add': 'adding to the collection'}[V.mode],
+                                                    '' if V.order() == sorted(V.order()) else ' with key and value exchanged')
+                    rep.check(ok, 'R6', subj + '/role', V.where, '%s: the field the test runner forwards' % why,
+                              '%s must %s self.%s with its parameters in order, but %s' % (subj, {'set': 'replace', 'add': 'add to'}[mode], fld, why))
+                if kapi is not None and m in kapi:
+                    opt, rnames, mode = kapi[m]
+                    if opt == 'command':
+                        ok = short in TRAILING and V.field == TRAILING[short][1] and V.mode == mode
+                        rep.check(ok, 'R6', subj + '/role', V.where, 'stores the words that follow the image', '%s stores into %s (%s), not into the trailing command' % (subj, V.field, V.mode))
+                        continue
+                    roles = argv_roles.get(short, {}).get(opt)
+                    if roles == {}:
+                        continue        # R7 could not decode the option's value and has said so
+                    if roles is None:
+                        rep.unproven('R6', subj + '/role', V.where, 'the conversion has no %s option to compare with' % opt)
+                        continue
+                    order = V.order()
+                    bad = []
+                    for i, rn in enumerate(rnames):
+                        want = (V.field, () if (i >= len(order) or order[i] == '') else (order[i],))
+                        got = roles.get(rn)
+                        if got is None or tuple(got[:2]) != want:
+                            bad.append('parameter %d is stored as %s%s but %s renders %s as its <%s>' % (
+                                i + 1, want[0], ''.join('.' + c for c in want[1]), opt, ('%s%s' % (got[0], ''.join('.' + c for c in got[1]))) if got else 'nothing', rn))
+                    ok = not bad and V.mode == mode and len(order) == len(rnames)
+                    rep.check(ok, 'R6', subj + '/role', V.where, 'parameters become the %s of %s' % (' / '.join('<%s>' % r for r in rnames), opt),
+                              '%s: %s' % (subj, '; '.join(bad) or 'stores by %s, expected %s' % (V.mode, mode)))
+            elif f.ret == ty and not is_setter:
+                rep.analysed(f)
+                found.add(m)
+                ok, why, where_, defaults = H.judge_constructor(prog, sl, f, ty)
+                w = '%s:%d' % (f.file, f.line)
+                if ok is None:
+                    rep.unproven('R6', subj, w, 'what %s constructs could not be established: %s' % (subj, why))
+                    continue
+                rep.check(ok, 'R6', subj, w, 'every parameter initialises one field: %s' % why, '%s: %s' % (subj, why))
+                if not ok:
+                    continue
+                api = (capi or {}).get(m) if capi is not None else (kapi or {}).get(m)
+                if capi is not None and isinstance(api, dict) and api:
+                    got = {p: where_.get(p) for p in api}
+                    rep.check(got == api, 'R6', subj + '/role', w, 'parameters initialise %s' % sorted(api.values()), '%s initialises %s, expected %s' % (subj, got, api))
+                elif kapi is not None and isinstance(api, dict):
+                    bad = []
+                    for p, (opt, rn) in sorted(api.items()):
+                        fld = where_.get(p)
+                        if opt == 'image':
+                            if not (short in TRAILING and fld == TRAILING[short][0]):
+                                bad.append('parameter %d initialises %s, not the image positional' % (p + 1, fld))
+                            continue
+                        got = (argv_roles.get(short, {}).get(opt) or {}).get(rn)
+                        if got is None or tuple(got[:2]) != (fld, ()):
+                            bad.append('parameter %d initialises %s but %s renders %s' % (p + 1, fld, opt, got[0] if got else 'nothing'))
+                    rep.check(not bad, 'R6', subj + '/role', w, 'parameters become %s' % ', '.join(o for o, _ in api.values()), '%s: %s' % (subj, '; '.join(bad)))
+                rep.extra.setdefault('constructor_defaults', {})[subj] = defaults
+        # what the setters fill must start empty (a non-empty default would reach the command line unconfigured)
+        for subj, defaults in list(rep.extra.get('constructor_defaults', {}).items()):
+            if not subj.startswith(short + '::'):
+                continue
+            f = prog.fns.get('%s::%s' % (ty, subj.split('::')[-1]))
+            bad = [fld for fld, v in sorted(defaults.items())
+                   if (fill.get(fld) == 'add' or (fld in fill and ftys.get(fld, '').startswith('std::option::Option<'))) and not H.is_empty_default(v)]
+            rep.check(not bad, 'R6', subj + '/defaults', '%s:%d' % (f.file, f.line) if f else '-', 'collections and options the setters fill start empty',
+                      '%s initialises %s with contents nobody configured' % (subj, bad))
+            rep.extra['constructor_defaults'][subj] = sorted(defaults)
+        for m in sorted(set(capi or kapi or {}) - found):
+            rep.unproven('R6', '%s::%s' % (short, m), '%s:%s' % (adt['file'], adt['line']), 'method %s::%s of the configuration API was not found' % (short, m))
+    # hand-written wrapping conversions on the way (`impl Into<BuildpackReference>` arguments, the app directory): the
+    # wrapped value is the argument itself
+    import re
+    rx = re.compile(r'^<(libcnb_test::pack::BuildpackReference|libcnb_test::app::AppDir) as std::convert::From<(.+)>>::from$')
+    n_conv = 0
+    for p, f in sorted(prog.fns.items()):
+        m = rx.match(p)
+        if not m or f.derived:
+            continue
+        n_conv += 1
+        rep.analysed(f)
+        subj = '%s::from<%s>' % (m.group(1).split('::')[-1], m.group(2).split('::')[-1])
+        v = strip(sl.local(f, 0))
+        pc = H.PCfg(f, 0)
+        w = '%s:%d' % (f.file, f.line)
+        if v[0] == 'agg' and len(v[3]) == 1 and pc.exact(H.peel(v[3][0][1])) == 0:
+            rep.holds('R6', subj, w, 'wraps its argument unchanged as %s' % v[2])
+        elif pc.mentioned(v):
+            rep.violated('R6', subj, w, 'the conversion produces %s, not its argument wrapped unchanged' % vstr(v)[:80])
+        else:
+            rep.unproven('R6', subj, w, 'the conversion produces %s' % vstr(v)[:80])
+    rep.check(n_conv >= 2, 'R6', 'wrapping-conversions', '-', '%d wrapping conversions analysed' % n_conv, 'the conversions into pack::BuildpackReference were not found')
+    rep.check(n_setters >= 20, 'R6', 'setters-analysed', '-', '%d setters analysed' % n_setters, 'only %d setters were found' % n_setters)
 
 
 def _without(v, name):
